@@ -26,8 +26,18 @@ TEXTS = ["1", "-2.5", "true", "FALSE", "none", "hello", "two words", " padded ",
 ATTRS = ["id", "name", "unit", "flag"]
 
 
+# legal XML names that resemble what the library reserves for itself (placeholder words, private keys, option blocks) ...
+RESERVED_LIKE = ["INCLUDE", "INCLUDE_DIRS", "include", "_buildOpts", "_content", "_contents", "_attributes", "_attrib", "_xmlOpts", "_opts",
+                 "BLOCKCOMMENT1", "LINECOMMENT7", "EXPRESSION", "STRINGLITERAL", "COMMENT", "_", "__", "FoamFile", "_nameSpaces", "_rootTag"]
+
+
+def special_tags() -> list[str]:
+    """... plus every word of the library's own source that is a legal XML name"""
+    return RESERVED_LIKE + [w for w in gen.source_vocab() if re.fullmatch(r"[A-Za-z_][\w.\-]*", w)]
+
+
 def gen_elem(rng, depth, tag=None):
-    e = {"tag": tag or rng.choice(TAGS), "attrs": [], "text": None, "children": []}
+    e = {"tag": tag or (rng.choice(special_tags()) if rng.random() < 0.2 else rng.choice(TAGS)), "attrs": [], "text": None, "children": []}
     for k in rng.sample(ATTRS, rng.choice([0, 0, 1, 2])):
         e["attrs"].append([k, rng.choice(["1", "abc", "", "true", "x y", "2.5", "TRUE", "False", "TrueGrain oak", "Falsework Yard", "NULL", "Mixed Case", "é"])])
     if depth > 0 and rng.random() < 0.55:
